@@ -203,6 +203,9 @@ def one_case(args):
             return bad("no progress: the process is alive, all threads sleep and no CPU time is consumed after the stop condition (deadlock)")
         if o.cpu_exceeded:
             return bad("no termination: %.0f s of CPU time consumed (bound %.0f s for %d bytes of input) and still running after the stop condition" % (o.cpu_exceeded, cpu_bound, len(data)))
+        if "WARNING: ThreadSanitizer" in o.stderr:
+            i = o.stderr.find("WARNING: ThreadSanitizer")
+            return bad("ThreadSanitizer: %s" % " | ".join(l.strip() for l in o.stderr[i:i + 3000].split("\n") if "ThreadSanitizer" in l or "/repo/" in l or "fastpasta" in l)[:600])
         if o.sig is not None:
             return bad("killed by signal %d" % o.sig)
         if o.panicked():
@@ -233,7 +236,16 @@ def run(res):
     exe = build.fastpasta("rel" if res.tier == "quick" else "ship")
     wd = scratch("c17")
     n = 180 if res.tier == "quick" else 4000
-    for o in pmap(one_case, [(exe, wd, res.seed, c, res.tier) for c in range(n)], workers=12):
+    jobs = [(exe, wd, res.seed, c, res.tier) for c in range(n)]
+    if res.tier == "thorough":
+        # race detector pass: the same stop scenarios (quick sizes) on a ThreadSanitizer build; any report (data race, lock-order inversion, thread leak) is a violation
+        try:
+            tsan = build.fastpasta("tsan")
+            jobs += [(tsan, wd, res.seed, 100000 + c, "quick") for c in range(360)]
+            res.extra["tsan_executions"] = 360
+        except build.BuildError as e:
+            res.inconclusive.append("ThreadSanitizer build failed: %s" % str(e)[-300:])
+    for o in pmap(one_case, jobs, workers=12):
         res.evaluations += 1
         if o["viol"]:
             res.violation(*o["viol"])
